@@ -83,6 +83,55 @@ def early_exits(C, R):
             R.ok("r3", "early-exit/%s/%s" % key, {"note": "audited exit no longer present"}, nontrivial=False)
 
 
+def uniqueness_obligations(C, R):
+    """r4: every name-keyed scope of a schema document must be checked for duplicates, otherwise an invalid document (two
+    definitions under one name) is accepted. Scopes of the supported constructs: type/interface names, field names of a type,
+    argument names of a field, scalar names vs type names, directive names. The first two and the last are visible as
+    insert_or_error calls whose Err is turned into an error (or a known panic); the other two are looked for structurally."""
+    R.rule("r4", "every name scope of the schema document has a duplicate check (types, fields, field arguments, scalar vs type names)")
+    new = C.fn(S + "Schema::new")
+    if new is None:
+        return
+    ins = [c for c in calls_in(new["body"]) if c.get("name") == "insert_or_error"]
+    scopes = {ekey(c["recv"]).split(".")[-1] for c in ins}
+    for need in ("vertex_types", "fields"):
+        R.check(need in scopes, "r4", "uniqueness/%s" % need, C.loc(new["sp"]), "Schema::new no longer detects duplicate %s" % need)
+    # argument names of one field: some validation code must iterate `arguments` of a FieldDefinition and test for repeats
+    arg_dup = False
+    for f in C.fns:
+        if not f["path"].startswith(S) or "::tests::" in f["path"] or "::adapter::" in f["path"]:
+            continue
+        for n, anc in walk_with_ctx(f["body"]):
+            if n.get("k") in ("mcall", "call") and n.get("name") in ("insert", "insert_or_error", "all_unique", "duplicates"):
+                loops = [a for a in anc if a.get("k") in ("loop", "match", "closure")]
+                txt = " ".join(ekey(x) for a in loops for x in walk(a) if x.get("k") == "field" and x.get("name") == "arguments")
+                # the outcome of the insertion must be looked at (if / match / `?` / let-else), not discarded
+                used = bool(anc) and anc[-1].get("k") in ("if", "letx", "match", "let", "un", "mcall", "call") and \
+                    not (anc[-1].get("k") == "block")
+                if txt and used and "name" in " ".join(ekey(x) for x in walk(n)):
+                    arg_dup = True
+    R.check(arg_dup, "r4", "uniqueness/field-arguments", C.loc(new["sp"]),
+            "no validation pass checks that the arguments of one field have distinct names: `e(p: Int, p: Int): A` is accepted by "
+            "Schema::parse (and every query through that edge then panics in the frontend)")
+    # scalar names vs type/interface names live in two maps: one must be consulted when inserting into the other
+    cross = False
+    for f in C.fns:
+        if not f["path"].startswith(S) or "::tests::" in f["path"] or "::adapter::" in f["path"]:
+            continue
+        for n in walk(f["body"]):
+            # one expression (a condition, a call) that involves both maps, e.g. `vertex_types.contains_key(scalar_name)` while
+            # iterating `scalars`, or a lookup of the other map inside the arm that inserts into one
+            if n.get("k") in ("if", "match", "loop", "closure"):
+                names = {ekey(x).split(".")[-1] for x in walk(n) if x.get("k") in ("local", "field")}
+                if {"scalars", "vertex_types"} <= names and n.get("k") != "loop":
+                    calls = [c for c in calls_in(n) if c.get("name") in ("contains_key", "get", "insert_or_error", "contains")]
+                    recvs = {ekey(c["recv"]).split(".")[-1] for c in calls if c.get("k") == "mcall"}
+                    if {"scalars", "vertex_types"} <= recvs and n.get("k") in ("if", "closure"):
+                        cross = True
+    R.check(cross, "r4", "uniqueness/scalar-vs-type-names", C.loc(new["sp"]),
+            "scalars and object/interface types are collected in separate maps and never compared: `scalar A  type A { .. }` is accepted")
+
+
 def run(ctx, R):
     C = ctx.core
     R.rule("r1", "reachable panic-capable constructs = audited set + listed known findings")
@@ -123,6 +172,7 @@ def run(ctx, R):
             any(x.get("k") == "ctor" and x.get("variant") == "Err" for x in walk(tail.get("els", {})))
     R.check(ok_tail, "r2", "ok-iff-no-errors", C.loc(f["sp"]), "Schema::new must end with `if errors.is_empty() { Ok(..) } else { Err(..) }`")
     early_exits(C, R)
+    uniqueness_obligations(C, R)
     # every error variant constructed somewhere in the schema module
     adt = C.adt_by_path.get(S + "error::InvalidSchemaError")
     if adt is None:
